@@ -256,12 +256,15 @@ def index_space(idx: str) -> str:
 def sort_idx_canonical(idx: Index):
     """Use as sort key to to bring indices in canonical order."""
     if isinstance(idx, Index):
-        # also add the hash here for wicks, where multiple i are around
+        # also add the dummy_index here for wicks, where multiple i are
+        # around. In contrast to the hash, the dummy_index orders indices of
+        # the same name by their creation and is therefore independent of
+        # the hash seed of the interpreter.
         return (idx.space[0],
                 idx.spin,
                 int(idx.name[1:]) if idx.name[1:] else 0,
                 idx.name[0],
-                hash(idx))
+                idx.dummy_index)
     else:  # necessary for subs to work correctly with simultaneous=True
         return ('', 0, str(idx), hash(idx))
 
